@@ -124,8 +124,9 @@ copy_an_data(int32 infile_id, int32 outfile_id, int32 ref_in, int32 tag_in, int3
         ann_out,    /* an annotation identifier */
         ann_length, /* length of the text in an annotation */
         n_anno;
-    int   i;   /* position of an annotation */
-    char *buf; /* buffer to hold the read annotation */
+    int    i;               /* position of an annotation */
+    char  *buf;             /* buffer to hold the read annotation */
+    int32 *ann_list = NULL; /* identifiers of the object's annotations */
     int   is_label = (type == AN_DATA_LABEL) ? 1 : 0;
     int   ret      = 0;
 
@@ -143,15 +144,25 @@ copy_an_data(int32 infile_id, int32 outfile_id, int32 ref_in, int32 tag_in, int3
         return -1;
     }
 
+    /* Get the identifiers of the annotations of THIS object (ANselect would index the
+       annotations of the whole file) */
+    if (n_anno > 0) {
+        if ((ann_list = (int32 *)malloc((size_t)n_anno * sizeof(int32))) == NULL) {
+            printf("Failed to get memory for the annotation list of <%s>\n", path);
+            return -1;
+        }
+        if (ANannlist(an_id, type, (uint16)tag_in, (uint16)ref_in, ann_list) == FAIL) {
+            printf("Failed to get the annotation list of <%s>\n", path);
+            free(ann_list);
+            return -1;
+        }
+    }
     for (i = 0; i < n_anno; i++) {
         /*-------------------------------------------------------------------------
          * read
          *-------------------------------------------------------------------------
          */
-        if ((ann_id = ANselect(an_id, i, type)) == FAIL) {
-            printf("Failed to select AN %d of <%s>\n", i, path);
-            continue;
-        }
+        ann_id = ann_list[i];
         if ((ann_length = ANannlen(ann_id)) == FAIL) {
             printf("Failed to get AN %d length of <%s>\n", i, path);
             continue;
@@ -203,6 +214,7 @@ copy_an_data(int32 infile_id, int32 outfile_id, int32 ref_in, int32 tag_in, int3
         free(buf);
     }
 
+    free(ann_list);
     /* Terminate access to the AN interface */
     if (ANend(an_id) == FAIL) {
         printf("Failed close AN for <%s>\n", path);
